@@ -103,10 +103,11 @@ PROPS = {
     ),
     'C17': dict(
         families=['typed'], reports=['marshal', 'unmarshal', 'utaps'],
-        proof_files=['Abstract/PathsAlias.v', 'Proofs/PathsP.v'],
-        theorems='c17_append_spec, c17_siblings_isolated, c17_taps_are_true_paths (for every growth policy of append); Snapshots.c17_snapshot_stable, c17_view_stable_when_full, c17_runs_taps_true_paths, c17_runs_independent (+ c17_view_refuted, c17_hdrs_refuted: why errors must copy the path); MarshalTaps.c17_marshal_taps_are_paths [the executable tap model = the declarative path of every element], c17_root_tap_path, c17_taps_extend_root, c17_sibling_taps_disjoint, c17_taps_count (+ c17_marshal_taps_tied_keys_edge)',
-        assumptions=['the aliasing model (Abstract/PathsAlias.v) and the tap model (Model/MarshalTaps.v) are tied to the code through the marshal tap-log correspondence (the tap model evaluated in Coq on every generated value) and, for unmarshal taps and error paths, through a Go-side reference path computation (incl. literal conversion errors, errors kept across runs that share a base context, sb.Tuple / pre-filled targets)',
-                     'there is no Coq model of unmarshal taps and error paths: on that side the theorems are the snapshot / view contrast and the sequential-runs theorem of the aliasing model'],
+        reference_reports={'utaps': 'the unmarshal path model is proved to announce exactly the declarative path of every element of a value read back from its canonical stream (c17_unmarshal_roundtrip_paths), to report only paths that extend the context path (c17_unmarshal_paths_extend) and to compute the value the unmarshal model computes (c17_unmarshal_paths_erase): a different tap path, error path or value on an input is a failure of the property on that input'},
+        proof_files=['Abstract/PathsAlias.v', 'Proofs/PathsP.v', 'Proofs/UnmarshalPathsP.v'],
+        theorems='c17_append_spec, c17_siblings_isolated, c17_taps_are_true_paths (for every growth policy of append); Snapshots.c17_snapshot_stable, c17_view_stable_when_full, c17_runs_taps_true_paths, c17_runs_independent (+ c17_view_refuted, c17_hdrs_refuted: why errors must copy the path); MarshalTaps.c17_marshal_taps_are_paths [the executable tap model = the declarative path of every element], c17_root_tap_path, c17_taps_extend_root, c17_sibling_taps_disjoint, c17_taps_count (+ c17_marshal_taps_tied_keys_edge); UnmarshalPaths.c17_unmarshal_roundtrip_paths [reading a value back announces exactly the declarative paths of its elements], c17_unmarshal_paths_erase, c17_unmarshal_paths_shift, c17_unmarshal_paths_extend, c17_unmarshal_first_tap',
+        assumptions=['the aliasing model (Abstract/PathsAlias.v) is tied to the code through the tap logs: the marshal tap model (Model/MarshalTaps.v) and the unmarshal path model (Model/UnmarshalPaths.v: value, error class, path carried by the error, TapUnmarshal log) are evaluated in Coq on every generated case and compared with what the implementation reported',
+                     'c17_unmarshal_roundtrip_paths is stated on the universe without maps, interfaces, funcs and registered names; map keys / values, interface positions, tuple items, registered names, failing streams (the path an error carries) are decided by the utaps correspondence and by Go-side reference path computations (incl. literal conversion errors, errors kept across runs that share a base context, sb.Tuple / pre-filled targets)'],
     ),
     'C18': dict(
         families=['heap'], reports=['heap'],
